@@ -53,10 +53,34 @@ def run_case(desc):
     H.store_hook = hook
     H.pre = lambda nid, att: time.sleep(0.0001)
     kw = {}
+    custom_retry = 0
     if sW is not None:
         kw["stale_check_max_workers"] = sW
     if retry_n:
         kw["retry"] = retry_n
+        if rng.random() < 0.35:
+            # a custom retry decorator OBJECT with the same policy (n attempts) - one whose truth value is False (it keeps statistics and has
+            # a length): it is honoured in the stale check, for store operations and for calls alike
+            class CountingRetry:
+                def __init__(self, n):
+                    self.n = n
+                    self.retries = []
+
+                def __len__(self):
+                    return 0
+
+                def __call__(self, f):
+                    def wrapper(*a, **k):
+                        for att in range(self.n):
+                            try:
+                                return f(*a, **k)
+                            except Exception:
+                                if att == self.n - 1:
+                                    raise
+                    return wrapper
+
+            kw["retry"] = CountingRetry(retry_n)
+            custom_retry = 1
     res, exc = S.run(out_ids, W=W, sched=desc["sched"], **kw)
     bound_mt = sW if sW is not None else W
     bad = None
@@ -102,7 +126,7 @@ def run_case(desc):
     n_reg = len(S.reg)
     counters = {"stale_runs": 1, "stale_mt_bound_reached": int(H.max_mt_in_flight == min(bound_mt, n_reg)),
                 "stale_max_mt_in_flight": H.max_mt_in_flight, "stale_flaky_store_ops": len(flaky),
-                "stale_runs_with_retry": int(bool(retry_n)), "stale_runs_store_op_exhausts_retry": int(exhaust is not None), "stale_exhausting_op_not_performed": int(exhaust_planned and exhaust is None)}
+                "stale_runs_with_retry": int(bool(retry_n)), "stale_runs_with_falsy_custom_retry_object": custom_retry, "stale_runs_store_op_exhausts_retry": int(exhaust is not None), "stale_exhausting_op_not_performed": int(exhaust_planned and exhaust is None)}
     r = {"status": "ok", "counters": counters, "nontrivial": H.max_mt_in_flight >= 2 or bool(flaky),
          "sig": hashlib.sha1(("\n".join(S.describe(100)) + f"|{W}|{sW}|{retry_n}|{sorted(flaky)}").encode()).hexdigest()[:16]}
     if seed % 150 == 0 or bad:
